@@ -55,6 +55,29 @@ Proof. exact reg_roundtrip. Qed.
 Theorem C05_batch_commitment_roundtrip : forall c, bc_nr c < U64 -> p_bcommit_legacy (e_bcommit c) = Val c.
 Proof. exact bcommit_roundtrip. Qed.
 
+Theorem C05_single_signature_roundtrip : forall md V s, ssig_ok V s -> p_ssig_legacy md V (e_ssig s) = Val s.
+Proof. exact ssig_roundtrip. Qed.
+
+Theorem C05_batch_path_roundtrip : forall b, bpath_ok b -> p_bpath_legacy (e_bpath b) = Val b.
+Proof. exact bpath_roundtrip. Qed.
+
+Theorem C05_aggregate_key_roundtrip : forall a, avk_ok a -> p_avk (e_avk a) = Val a.
+Proof. exact avk_roundtrip. Qed.
+Theorem C05_signature_registered_party_roundtrip : forall md V x, sigreg_ok V x -> p_sigreg md V (e_sigreg x) = Val x.
+Proof. exact p_sigreg_enc. Qed.
+Theorem C05_concatenation_proof_roundtrip : forall md V p, cproof_ok V p -> p_cproof_legacy md V (e_cproof p) = Val p.
+Proof. exact cproof_roundtrip. Qed.
+(* through the public entry point: type prefix 0, version dispatch, legacy layout *)
+Theorem C05_aggregate_signature_roundtrip : forall md V p, cproof_ok V p -> p_aggr md V (e_aggr p) = Val p.
+Proof. exact aggr_roundtrip. Qed.
+
+Theorem C05_key_with_pop_roundtrip : forall V k, vkpop_ok V k -> p_vkpop V (e_vkpop k) = Val k.
+Proof. exact vkpop_roundtrip. Qed.
+Theorem C05_initializer_roundtrip : forall V i, init_ok V i -> p_init_legacy V (e_init i) = Val i.
+Proof. exact init_roundtrip. Qed.
+Theorem C05_merkle_tree_roundtrip : forall md t, mtree_ok t -> p_mtree_legacy md (e_mtree t) = Val t.
+Proof. exact mtree_roundtrip. Qed.
+
 (* ---- non-vacuity: concrete encodings that decode, in both arithmetic modes ---- *)
 Example C05_ex_single_signature :
   let sigma := repeat 200 48 in
@@ -63,6 +86,11 @@ Example C05_ex_single_signature :
   p_ssig Checked (mkV [(0, sigma)]) (e_ssig s) = Val s /\ p_ssig Wrapping (mkV [(0, sigma)]) (e_ssig s) = Val s /\
   p_ssig Checked (mkV []) (e_ssig s) = Fail.
 Proof. vm_compute. repeat split; reflexivity. Qed.
+Example C05_ex_merkle_tree :
+  let t := {| mt_n := 3; mt_off := 3; mt_nodes := repeat (repeat 9 32) 6 |} in
+  p_mtree Checked (e_mtree t) = Val t /\ p_mtree Wrapping (e_mtree t) = Val t /\
+  len (mt_nodes t) + 1 = mt_n t + npow2 (mt_n t).
+Proof. vm_compute. repeat split; reflexivity. Qed.
 Example C05_ex_hex : hex_decode [52; 97; 70; 102] = Some [74; 255] /\ hex_decode [52; 97; 70] = None /\ hex_decode [52; 103] = None.
 Proof. vm_compute. repeat split. Qed.
 (* the 25-byte input of the finding (aggregate signature, count 2^64-1) is now an error *)
@@ -70,3 +98,19 @@ Example C05_ex_witness :
   p_aggr Checked (mkV []) (0 :: repeat 255 8 ++ repeat 0 16) = Fail /\
   cp_capacity (repeat 255 8 ++ repeat 0 16) 18446744073709551615 = 3.
 Proof. vm_compute. repeat split. Qed.
+
+(* the hypotheses of the round-trip theorems are satisfiable: two signatures with three indices, a batch path *)
+Example C05_ex_proof_ok : cproof_ok ex_V ex_proof /\ p_aggr Checked ex_V (e_aggr ex_proof) = Val ex_proof.
+Proof.
+  split.
+  - unfold cproof_ok. cbn [ex_proof cp_sigs cp_bp]. split; [|split; [|split]].
+    + constructor; [apply ex_sr_ok|constructor; [apply ex_sr_ok|constructor]].
+    + lt_by_compute.
+    + unfold bpath_ok, hashes, u64s. cbn [bp_values bp_indices]. split; [|split; [|split]].
+      * constructor; [vm_compute; reflexivity|constructor].
+      * lt_by_compute.
+      * constructor; [lt_by_compute|constructor; [lt_by_compute|constructor]].
+      * lt_by_compute.
+    + unfold small. lt_by_compute.
+  - vm_compute. reflexivity.
+Qed.
